@@ -163,10 +163,58 @@ def parse(res):
     if 'Error:' in out and not res.violated:
         i = out.index('Error:')
         res.error = out[i : i + 600]
-    res.prints = [ln for ln in out.splitlines() if ln.startswith('<<')]
+    res.prints = joined_prints(out)
     for m in _RE_COV.finditer(out):
         res.coverage[m.group(1)] = (int(m.group(3)), int(m.group(4)))
     return res
+
+
+def joined_prints(out):
+    '''PrintT rows; TLC wraps values longer than ~80 characters over several lines: join until << >> balance'''
+    rows = []
+    cur = None
+    for ln in out.splitlines():
+        if cur is None:
+            if ln.startswith('<<'):
+                cur = ln
+            else:
+                continue
+        else:
+            cur += ' ' + ln.strip()
+        if _balanced(cur):
+            rows.append(cur)
+            cur = None
+        elif len(cur) > 2000000:
+            cur = None
+    return rows
+
+
+def _balanced(text):
+    depth = 0
+    i = 0
+    n = len(text)
+    instr = False
+    while i < n:
+        c = text[i]
+        if instr:
+            if c == '\\':
+                i += 1
+            elif c == '"':
+                instr = False
+        elif c == '"':
+            instr = True
+        elif text.startswith('<<', i):
+            depth += 1
+            i += 1
+        elif text.startswith('>>', i):
+            depth -= 1
+            i += 1
+        elif c in '{[(':
+            depth += 1
+        elif c in '}])':
+            depth -= 1
+        i += 1
+    return depth == 0 and not instr
 
 
 def printed(res, tag):
@@ -174,6 +222,7 @@ def printed(res, tag):
     rows = []
     pre = '<<"' + tag + '"'
     for ln in res.prints:
+        ln = re.sub(r'^<<\s*', '<<', ln)
         if ln.startswith(pre):
             rows.append(tla_value(ln))
     return rows
